@@ -279,6 +279,8 @@ REGISTRY.update(_R1)
 REGISTRY.update(_R2)
 from props_misc import REGISTRY as _R3  # noqa: E402
 REGISTRY.update(_R3)
+from props_fc import REGISTRY as _R4  # noqa: E402
+REGISTRY.update(_R4)
 
 
 def main(argv):
